@@ -163,7 +163,7 @@ def check_meta(ctx):
                 tr = A.get_arg(c, None, "t_ref")
                 ctx.check(R, c, "copy passes t_ref", from_tbl and (tr is None or canon(tr) == "self.t_ref"), "copy() does not carry the table / epoch", key="copy:t_ref", nontrivial=False)
                 ctx.check(R, c, "copy copies the table", a0r is not None and canon(a0r) == canon(parse("self.tbl.copy()")), "copy() shares `%s` with the original" % (A.unparse(a0r) if a0r is not None else None), key="copy:copy")
-    ctx.floor(R, n, 4)
+    ctx.floor(R, n, 3)
     gi = ctx.prog.func(SM, "JokerSamples.__getitem__", R)
     rets = [s for s in A.walk_local(gi) if isinstance(s, ast.Return)]
     colret = [s for s in rets if canon(s.value) == canon(parse("self.tbl[key]"))]
@@ -173,11 +173,18 @@ def check_meta(ctx):
     ctx.check(R, gi, "any other key returns the re-wrapped selection self.tbl[key]", len(sel) >= 1 and len(sel) + len(colret) == len(rets), "returns: %s" % [A.unparse(s.value)[:40] for s in rets], key="getitem:sel")
     ap = ctx.prog.func(SM, "JokerSamples._apply", R)
     loops = [l for l in A.walk_local(ap) if isinstance(l, ast.For)]
-    oka = len(loops) == 1 and canon(loops[0].iter) in (canon(parse("self.tbl.colnames")), canon(parse("self.par_names")))
-    if oka:
+    comps = [n for n in A.walk_local(ap) if isinstance(n, ast.DictComp)]
+    iters_ok = (canon(parse("self.tbl.colnames")), canon(parse("self.par_names")))
+    oka = False
+    if len(loops) == 1 and canon(loops[0].iter) in iters_ok and isinstance(loops[0].target, ast.Name):
         k = loops[0].target.id
         st = [s for s in loops[0].body if isinstance(s, ast.Assign) and isinstance(s.targets[0], ast.Subscript)]
         oka = len(st) == 1 and canon(st[0].targets[0].slice) == k and canon(strip_to(st[0].value)) == canon(parse("func(self[%s])" % k))
+    elif len(comps) == 1 and len(comps[0].generators) == 1 and canon(comps[0].generators[0].iter) in iters_ok and not comps[0].generators[0].ifs and isinstance(comps[0].generators[0].target, ast.Name):
+        k = comps[0].generators[0].target.id
+        oka = canon(comps[0].key) == k and canon(strip_to(comps[0].value)) == canon(parse("func(self[%s])" % k))
+    if False:
+        pass
     ctx.check(R, ap, "_apply reduces every column under its own name", oka, "loop body does not store func(self[k]) under k for every column", key="apply")
     for q, fnm in (("JokerSamples.mean", "np.mean"), ("JokerSamples.std", "np.std")):
         f = ctx.prog.func(SM, q, R)
@@ -214,28 +221,45 @@ def check_median(ctx):
 
 def check_pack(ctx):
     R = "C17-PACK"
-    ctx.rule(R, "pack iterates names once, strips column `name` in units.get(name, own unit), records that unit under that name and stacks columns in that order; "
-                "unpack zips units.keys() with the columns in order and attaches units[k] to column k; extra kwargs reach the constructor.")
+    ctx.rule(R, "pack iterates names once, strips column `name` in units.get(name, own unit), records that same unit under that name and stacks the columns in that order; "
+                "unpack pairs the i-th key of the unit table with column i of the packed array and attaches units[key] to it unchanged; extra kwargs reach the constructor "
+                "(temporaries and local names are irrelevant: expressions are compared after inlining them).")
     fn = ctx.prog.func(SM, "JokerSamples.pack", R)
-    loops = [l for l in A.walk_local(fn) if isinstance(l, ast.For) and canon(l.iter) == "names"]
-    ok = len(loops) == 1
+    loops = [l for l in A.walk_local(fn) if isinstance(l, ast.For) and canon(A.inline_temporaries(l.iter, l, fn)) in ("names", canon(parse("list(names)")))]
+    ok = len(loops) == 1 and isinstance(loops[0].target, ast.Name)
     if ok:
         l = loops[0]
         nm = l.target.id
-        unit_def = [s for s in l.body if isinstance(s, ast.Assign) and canon(s.targets[0]) == "unit"]
-        oku = len(unit_def) == 1 and canon(unit_def[0].value) == canon(parse("units.get(%s, self.tbl[%s].unit)" % (nm, nm)))
-        ctx.check(R, l, "pack: unit = units.get(name, own unit)", oku, "unit = %s" % (A.unparse(unit_def[0].value) if unit_def else None), key="pack:unit")
+        want_unit = canon(parse("units.get(%s, self.tbl[%s].unit)" % (nm, nm)))
         app = [c for c in A.calls_in(l) if A.last_attr(c) == "append"]
-        oka = len(app) == 1 and canon(app[0].args[0]) == canon(parse("self.tbl[%s].to_value(unit)" % nm)) or (len(app) == 1 and canon(app[0].args[0]) == canon(parse("self.tbl[%s].to(unit).value" % nm)))
-        ctx.check(R, l, "pack: column stripped in that unit", oka, "appends `%s`" % (A.unparse(app[0].args[0]) if app else None), key="pack:strip")
-        ou = [s for s in l.body if isinstance(s, ast.Assign) and isinstance(s.targets[0], ast.Subscript) and canon(s.targets[0].value) == "out_units"]
-        oko = len(ou) == 1 and canon(ou[0].targets[0].slice) == nm and canon(ou[0].value) == "unit"
-        ctx.check(R, l, "pack: the same unit is recorded under the same name", oko, "out_units store is `%s`" % (A.unparse(ou[0]) if ou else None), key="pack:record")
+        oka = False
+        got_unit = None
+        if len(app) == 1:
+            v = A.inline_temporaries(app[0].args[0], A.enclosing_stmt(app[0]), fn)
+            if isinstance(v, ast.Call) and isinstance(v.func, ast.Attribute) and v.func.attr == "to_value" and canon(v.func.value) == canon(parse("self.tbl[%s]" % nm)) and v.args:
+                got_unit = canon(v.args[0])
+                oka = got_unit == want_unit
+            elif isinstance(v, ast.Attribute) and v.attr == "value" and isinstance(v.value, ast.Call) and A.last_attr(v.value) == "to" and canon(v.value.func.value) == canon(parse("self.tbl[%s]" % nm)):
+                got_unit = canon(v.value.args[0])
+                oka = got_unit == want_unit
+            why = "appends `%s`" % A.unparse(v)[:90]
+        else:
+            why = "%d append sites in the loop" % len(app)
+        ctx.check(R, l, "pack: column `name` stripped in units.get(name, own unit)", oka, why, key="pack:strip")
+        ou = [s for s in A.walk_local(l) if isinstance(s, ast.Assign) and isinstance(s.targets[0], ast.Subscript) and canon(s.targets[0].slice) == nm and s.targets[0].value is not None
+              and not dotted(s.targets[0].value) in ("self.tbl",)]
+        oko = len(ou) == 1 and canon(A.inline_temporaries(ou[0].value, ou[0], fn)) == want_unit
+        ctx.check(R, l, "pack: the same unit is recorded under the same name", oko, "recorded unit: `%s`" % (A.unparse(A.inline_temporaries(ou[0].value, ou[0], fn))[:70] if ou else None), key="pack:record")
+        flow = A.Flow(fn)
+        okr = False
+        if len(flow.returns) == 1 and isinstance(flow.returns[0][1].value, ast.Tuple) and len(flow.returns[0][1].value.elts) == 2 and app and ou:
+            r0, r1 = flow.returns[0][1].value.elts
+            r0 = A.inline_temporaries(r0, flow.returns[0][1], fn)
+            okr = isinstance(r0, ast.Call) and A.call_name(r0) in ("np.stack", "np.column_stack") and canon(r0.args[0]) == canon(app[0].func.value) \
+                and (A.call_name(r0) == "np.column_stack" or A.const_value(A.get_arg(r0, 1, "axis")) == 1) and canon(r1) == canon(ou[0].targets[0].value)
+        ctx.check(R, fn, "pack returns (columns stacked along axis 1, recorded units)", okr, "returns `%s`" % (A.unparse(flow.returns[0][1].value)[:80] if flow.returns else None), key="pack:ret")
     else:
         ctx.violate(R, fn, "pack iterates names once", "found %d loops over names" % len(loops), key="pack:loop")
-    rets = [s for s in A.walk_local(fn) if isinstance(s, ast.Return)]
-    okr = len(rets) == 1 and canon(rets[0].value) == canon(parse("(np.stack(arrs, axis=1), out_units)"))
-    ctx.check(R, fn, "pack returns (stack(columns, axis=1), units)", okr, "returns `%s`" % (A.unparse(rets[0].value) if rets else None), key="pack:ret")
     nd = [s for s in A.walk_local(fn) if isinstance(s, ast.Assign) and canon(s.targets[0]) == "names"]
     vals = sorted(canon(s.value) for s in nd)
     ctx.check(R, fn, "default names: packed nonlinear order, or all columns", vals == sorted(["_nonlinear_packed_order", "self.par_names"]), "default names %s" % vals, key="pack:names", nontrivial=False)
@@ -245,23 +269,41 @@ def check_pack(ctx):
     why = "no loop"
     if len(loops) == 1:
         l = loops[0]
-        it = l.iter
-        oke = isinstance(it, ast.Call) and A.call_name(it) == "enumerate" and canon(it.args[0]) in (canon(parse("list(units.keys())[:npars]")), canon(parse("list(units)[:npars]")), canon(parse("units.keys()")), canon(parse("units")))
-        if oke and isinstance(l.target, ast.Tuple):
-            i, k = l.target.elts[0].id, l.target.elts[1].id
-            st = [s for s in A.walk_local(l) if isinstance(s, ast.Assign) and isinstance(s.targets[0], ast.Subscript) and canon(s.targets[0].value) == "samples"]
+        it = A.inline_temporaries(l.iter, l, un)
+        packed_names = {"packed_samples", canon(parse("np.array(packed_samples)"))}
+        npars_forms = {canon(parse("packed_samples.shape[1]")), canon(parse("np.array(packed_samples).shape[1]")), "npars", "n_pars"}
+        tup = [s for s in A.walk_local(un) if isinstance(s, ast.Assign) and isinstance(s.targets[0], ast.Tuple) and len(s.targets[0].elts) == 2 and canon(A.inline_temporaries(s.value, s, un)) in
+               (canon(parse("packed_samples.shape")), canon(parse("np.array(packed_samples).shape")))]
+        if tup:
+            npars_forms.add(canon(tup[0].targets[0].elts[1]))
+        keyforms = {"units", canon(parse("units.keys()")), canon(parse("list(units.keys())")), canon(parse("list(units)"))}
+        keyforms |= {canon(parse("list(units.keys())[:%s]" % n_)) for n_ in npars_forms} | {canon(parse("list(units)[:%s]" % n_)) for n_ in npars_forms}
+        kvar = ivar = colexpr = None
+        if isinstance(it, ast.Call) and A.call_name(it) == "enumerate" and isinstance(l.target, ast.Tuple) and canon(it.args[0]) in keyforms:
+            ivar, kvar = l.target.elts[0].id, l.target.elts[1].id
+            colexpr = lambda v: isinstance(v, ast.Subscript) and canon(A.strip_casts(v.value)) in packed_names and isinstance(v.slice, ast.Tuple) and len(v.slice.elts) == 2 and isinstance(v.slice.elts[0], ast.Slice) and canon(v.slice.elts[1]) == ivar
+        elif isinstance(it, ast.Call) and A.call_name(it) == "zip" and len(it.args) == 2 and isinstance(l.target, ast.Tuple) and canon(it.args[0]) in keyforms \
+                and canon(A.strip_casts(it.args[1])) in {p_ + ".T" for p_ in packed_names} | {canon(parse("np.array(packed_samples).T")), canon(parse("packed_samples.T"))}:
+            kvar, cvar = l.target.elts[0].id, l.target.elts[1].id
+            colexpr = lambda v: canon(v) == cvar
+        if kvar is not None:
+            st = [s for s in A.walk_local(l) if isinstance(s, ast.Assign) and isinstance(s.targets[0], ast.Subscript) and canon(s.targets[0].slice) == kvar]
             if len(st) == 1:
                 v = A.inline_temporaries(st[0].value, st[0], un)
-                oku = canon(st[0].targets[0].slice) == k and canon(v) == canon(parse("packed_samples[:, %s] * units[%s]" % (i, k)))
-                why = "samples[%s] = %s" % (A.unparse(st[0].targets[0].slice), A.unparse(v))
+                if isinstance(v, ast.BinOp) and isinstance(v.op, ast.Mult):
+                    sides = [v.left, v.right]
+                    unit_ok = any(canon(x) == canon(parse("units[%s]" % kvar)) for x in sides)
+                    col_ok = any(colexpr(x) for x in sides)
+                    oku = unit_ok and col_ok
+                why = "samples[%s] = %s" % (A.unparse(st[0].targets[0].slice), A.unparse(v)[:90])
+            else:
+                why = "%d stores under the key in the loop" % len(st)
         else:
-            why = "loop is `for %s in %s`" % (A.unparse(l.target), A.unparse(it))
-    ctx.check(R, un, "unpack: column i carries units[k] for the i-th key k", oku, why, key="unpack:loop")
+            why = "loop is `for %s in %s`: the i-th key of the unit table is not paired with the i-th column" % (A.unparse(l.target), A.unparse(it)[:70])
+    ctx.check(R, un, "unpack: column i carries units[k] for the i-th key k, values unchanged", oku, why, key="unpack:loop")
     cons = [c for c in A.calls_in(un) if canon(c.func) == "cls"]
     okc = len(cons) == 1 and any(k.arg is None and canon(k.value) == "kwargs" for k in cons[0].keywords)
     ctx.check(R, un, "unpack forwards t_ref / poly_trend / n_offsets kwargs to the constructor", okc, "constructor call does not receive **kwargs", key="unpack:kwargs")
-    nm = [s for s in A.walk_local(un) if isinstance(s, ast.Assign) and "npars" in A.unparse(s.targets[0])]
-    ctx.check(R, un, "npars is the packed array's column count", len(nm) == 1 and canon(nm[0].value) == canon(parse("packed_samples.shape")), "npars from `%s`" % (A.unparse(nm[0].value) if nm else None), key="unpack:npars", nontrivial=False)
 
 
 def run(ctx):
